@@ -569,6 +569,11 @@ func StreamSetForInterfaceFromArray(list []interface{}) *StreamSetForInterfaceDe
 func StreamSetForInterfaceFromMap(theMap map[interface{}]*StreamForInterfaceDef) *StreamSetForInterfaceDef {
 	resultMap := make(map[interface{}]interface{}, len(theMap))
 	for k, v := range theMap {
+		if v == nil {
+			// Store an untyped nil: a typed nil pointer inside interface{} would pass the `v != nil` checks
+			resultMap[k] = nil
+			continue
+		}
 		resultMap[k] = v
 	}
 	result := StreamSetForInterfaceDef{
